@@ -11,6 +11,7 @@ import (
 	"github.com/enbility/spine-go/internal/verifh/engine"
 	"github.com/enbility/spine-go/internal/verifh/world"
 	"github.com/enbility/spine-go/model"
+	"github.com/enbility/spine-go/spine"
 )
 
 // C20 — the use-case registry reflects exactly what the application declared.
@@ -34,9 +35,17 @@ var ucNames = map[string]model.UseCaseNameType{"u1": model.UseCaseNameTypeLimita
 
 func newUCWorld() *ucWorld { return newUCWorldEv(false) }
 
-func newUCWorldEv(events bool) *ucWorld {
+func newUCWorldEv(events bool) *ucWorld { return newUCWorldDetached(events, "") }
+
+// newUCWorldDetached: the named entity is created for the device but not added to it yet (an application may
+// declare its use cases first and add the entity afterwards).
+func newUCWorldDetached(events bool, detached string) *ucWorld {
 	u := &ucWorld{w: world.New(events), ents: map[string]api.EntityLocalInterface{}, m: map[string]ucVal{}, gone: map[string]bool{}}
 	for _, k := range []string{"e1", "e2", "e11"} {
+		if k == detached {
+			u.ents[k] = spine.NewEntityLocal(u.w.L, model.EntityTypeTypeCEM, spine.NewAddressEntityType(ucEnts[k]), 0)
+			continue
+		}
 		u.ents[k] = u.w.AddLocalEntity(ucEnts[k], model.EntityTypeTypeCEM, 0)
 	}
 	u.w.ConnectAndAnnounce("A", "dA", []world.EntSpec{clientEntity([]uint{1})})
@@ -65,6 +74,10 @@ func (u *ucWorld) do(op string) {
 		e.RemoveAllUseCaseSupports()
 	case "rmentity":
 		u.w.L.RemoveEntity(e)
+	case "attach":
+		if u.w.L.Entity(spine.NewAddressEntityType(ucEnts[f[1]])) == nil {
+			u.w.L.AddEntity(e)
+		}
 	}
 }
 
@@ -207,9 +220,40 @@ func c20Alphabet(thorough bool) []string {
 	return a
 }
 
+// c20DetachedDriver: entity [2] exists as an object of the device but is added to it only by the operation
+// attach:e2 — use cases declared before that count like any other (registry and what a peer reads).
+func c20DetachedDriver() *engine.HDriver {
+	alpha := []string{"add:e2:a1:u1:1.0.0:t:12", "add:e2:a1:u2:1.0.0:f:1", "remove:e2:a1:u1", "avail:e2:a1:u1:f", "removeall:e2", "attach:e2",
+		"add:e1:a1:u1:1.0.0:t:12", "remove:e1:a1:u1"}
+	return &engine.HDriver{Name: "use-cases-declared-before-AddEntity", Alphabet: alpha,
+		Step: func(hist []string, op string) engine.HStep {
+			u := newUCWorldDetached(false, "e2")
+			rt.WaitIdle()
+			for _, h := range hist {
+				u.do(h)
+				u.model(h)
+			}
+			rt.WaitIdle()
+			var st engine.HStep
+			if op != "" {
+				before := u.refDump()
+				u.do(op)
+				u.model(op)
+				rt.WaitIdle()
+				st.Violations = u.judge(op)
+				st.Effect = before != u.refDump() || op == "attach:e2"
+				st.Digest = strings.Split(op, ":")[0] + fmt.Sprint(st.Effect)
+			}
+			_, reply, _ := u.observe()
+			st.Key = reply + fmt.Sprint(" attached=", u.w.L.Entity(spine.NewAddressEntityType(ucEnts["e2"])) != nil)
+			st.Cut = reply != u.refDump()
+			return st
+		}}
+}
+
 func c20Drivers(thorough bool) []*engine.HDriver {
 	alpha := c20Alphabet(thorough)
-	return []*engine.HDriver{{Name: "use-cases", Alphabet: alpha,
+	return []*engine.HDriver{c20DetachedDriver(), {Name: "use-cases", Alphabet: alpha,
 		Ops: func(hist []string) []string {
 			gone := map[string]bool{}
 			for _, h := range hist {
